@@ -40,7 +40,8 @@ RULE = ("a case = one connection: 1-6 requests (HTTP/1.0|1.1 x no Connection hea
         "HTTPError; 0-60 pieces incl. empty ones and pieces > socket buffer; Content-Length absent / exact / shorter / longer "
         "than produced; status str or int; duplicate header names). All sequences up to length 2 (quick) / 3 (thorough) over "
         "{4 request kinds} x {with, without Content-Length} x {burst, serial} are enumerated, the rest is random from VERIF_SEED. "
-        "Apps that call start_response twice for one response (second call with exc_info before any output; {Content-Length, none} "
+        "Generator apps that raise (Exception / HTTPError) before output or after 1..n pieces; Connection headers with several options "
+        "(close / keep-alive not first, whitespace, mixed case, TE, Upgrade). Apps that call start_response twice for one response (second call with exc_info before any output; {Content-Length, none} "
         "x {Content-Length, none}) on a fixed schedule and at random. "
         "Plus a fixed schedule of responses of 2*tcp_wmem[2]+2 MiB (Content-Length / chunked / close-delimited) to requests after which "
         "the server closes, read by a slow client (SO_RCVBUF 16 KiB, bounded read per round). "
@@ -63,7 +64,8 @@ TIMEOUT_S = {"quick": 240, "thorough": 1500}
 BUDGET_S = {"quick": 25, "thorough": 300}
 REQUIRE = {"responses_judged": 500, "followed_response_self_delimiting_checks": 150, "eof_after_nonpersistent_checks": 100,
            "stays_open_checks": 60, "clamp_checks": 15, "nolength_on_open_connection_cases": 50, "empty_pieces_scripted": 100,
-           "big_nonkept_responses_complete_and_exact": 3, "restart_responses_judged": 60,
+           "big_nonkept_responses_complete_and_exact": 3, "restart_responses_judged": 60, "raising_iterator_responses_judged": 60,
+           "raising_iterator_chunked_response_followed_by_another": 10, "multi_option_connection_requests_judged": 60,
            "restart_length_then_nolength_on_persistent_request": 10, "rounds_with_unsent_response_bytes_in_server": 30}
 EXHAUSTIVE = {"quick": "all request sequences of length <= 2 over {1.1, 1.1 close, 1.0, 1.0 keep-alive} x {Content-Length, none} x {burst, serial}",
               "thorough": "all request sequences of length <= 3 over {1.1, 1.1 close, 1.0, 1.0 keep-alive} x {Content-Length, none} x {burst, serial}"}
@@ -106,10 +108,21 @@ def expand_req(r):
     return dict(r, app=a)
 
 
+def conn_tokens(req):
+    """connection options of the request: comma separated, case-insensitive tokens with optional whitespace (RFC 7230 6.1)"""
+    return [t.strip().lower() for t in (req["conn"] or "").split(",") if t.strip()]
+
+
 def persistent(req):
     if req["ver"] == "1.1":
-        return (req["conn"] or "").lower() != "close"
-    return (req["conn"] or "").lower() == "keep-alive"
+        return "close" not in conn_tokens(req)
+    return "keep-alive" in conn_tokens(req)
+
+
+# Connection header values with several options; none of them contains "close"/"keep-alive" as a mere substring of another
+# token and none names both (what wins then on HTTP/1.0 is not settled), so the reading is unambiguous
+MULTI_CONN = {"1.1": ["TE, close", "close, TE", "Upgrade,close", "Close , TE", "TE,  CLOSE", "keep-alive, Upgrade", "TE", "Upgrade, TE"],
+              "1.0": ["TE, keep-alive", "Keep-Alive, TE", "keep-alive ,Upgrade", "TE,KEEP-ALIVE", "TE", "close, TE", "Upgrade, TE"]}
 
 
 # --------------------------------------------------------------------------- generation
@@ -144,8 +157,31 @@ def restart_app(rid, first_len, second_len, restart_style, pieces, pre=0, status
             "pieces": pieces, "wpieces": [], "ret": "", "pre": pre}
 
 
+def raising_app(rid, pieces, raise_kind, cl=None, pre=0, status="200 OK"):
+    """A generator app that yields `pieces` and then RAISES (plain Exception, or hio HTTPError after the head is out).
+    The application's output is what it produced before failing."""
+    hdrs = [["Content-Type", "text/plain"], ["X-Id", rid]]
+    if cl is not None:
+        hdrs.append(["Content-Length", str(cl)])
+    return {"style": "raise", "raise_kind": raise_kind, "status": status, "headers": hdrs, "cl": cl,
+            "pieces": pieces, "wpieces": [], "ret": "", "pre": pre}
+
+
 def gen_app(rng, rid, allow_underrun):
-    style = rng.choice(["list", "list", "gen", "gen", "genret", "write", "iterobj", "httperror", "restart"])
+    style = rng.choice(["list", "list", "gen", "gen", "genret", "write", "iterobj", "httperror", "restart", "raise"])
+    if style == "raise":
+        pieces = [_piece(rng) for _ in range(rng.choice([0, 1, 1, 2, 3, 6]))]
+        kind = rng.choice(["exception", "exception", "httperror"])
+        if kind == "httperror" and not any(pieces):
+            pieces.append("out-" + rid)      # an HTTPError before the head is the `httperror` style (an error response)
+        produced = sum(len(p) for p in pieces)
+        cl = None
+        r = rng.random()
+        if r < 0.2:
+            cl = produced                      # everything announced was delivered before the failure
+        elif r < 0.3 and allow_underrun:
+            cl = produced + rng.randint(1, 30)  # failed before the announced length: only judged last on a connection
+        return raising_app(rid, pieces, kind, cl, pre=rng.choice([0, 0, 1]), status=rng.choice(STR_STATUS))
     if style == "restart":
         pieces = [_piece(rng) for _ in range(rng.choice([0, 1, 2, 3, 5]))]
         produced = sum(len(p) for p in pieces)
@@ -206,6 +242,8 @@ def gen_app(rng, rid, allow_underrun):
 
 def gen_req(rng, rid, last):
     ver, conn = rng.choice(KINDS + [("1.1", None), ("1.1", None), ("1.1", "keep-alive"), ("1.0", "close"), ("1.1", "Close")])
+    if rng.random() < 0.15:
+        conn = rng.choice(MULTI_CONN[ver])
     method = rng.choice(["GET", "GET", "POST", "PUT"])
     body = "".join(rng.choice(ALPHA) for _ in range(rng.randint(1, 60))) if method != "GET" else ""
     return {"id": rid, "ver": ver, "conn": conn, "method": method, "body": body,
@@ -244,6 +282,32 @@ def cases(tier, seed, shard, nshards):
                     reqs = [simple_req(f"E{j}x{i}", KINDS[k], cl) for j, (k, cl) in enumerate(seq)]
                     yield {"kind": "enum", "mode": mode, "cuts": [], "reqs": reqs}
                 i += 1
+    # fixed schedule: the app's iterator raises (plain Exception / HTTPError) before any output, after 1 and after 3 pieces,
+    # without and with a (fully delivered) Content-Length, on kept and non-kept requests, followed by two more requests
+    for raise_kind in ("exception", "httperror"):
+        for pieces in ([], ["first piece "], ["one ", "", "two ", "three"]):
+            if raise_kind == "httperror" and not pieces:
+                continue
+            for with_cl in (False, True):
+                for kind in (("1.1", None), ("1.1", "close"), ("1.0", "keep-alive")):
+                    for mode in ("burst", "serial"):
+                        if i % nshards == shard:
+                            rid = f"X{i}a"
+                            cl = sum(len(p) for p in pieces) if with_cl else None
+                            r0 = {"id": rid, "ver": kind[0], "conn": kind[1], "method": "GET", "body": "",
+                                  "app": raising_app(rid, list(pieces), raise_kind, cl)}
+                            yield {"kind": "raise", "mode": mode, "cuts": [],
+                                   "reqs": [r0, simple_req(f"X{i}b", ("1.1", None), False), simple_req(f"X{i}c", ("1.1", None), True)]}
+                        i += 1
+    # fixed schedule: Connection headers with several options (close / keep-alive not first, whitespace, mixed case)
+    for ver in ("1.1", "1.0"):
+        for conn in MULTI_CONN[ver]:
+            for with_cl in (True, False):
+                for mode in ("burst", "serial"):
+                    if i % nshards == shard:
+                        yield {"kind": "multiconn", "mode": mode, "cuts": [],
+                               "reqs": [simple_req(f"C{i}a", (ver, conn), with_cl), simple_req(f"C{i}b", ("1.1", None), True)]}
+                    i += 1
     # fixed schedule: start_response called twice for one response (second call with exc_info before any output), every
     # combination of {Content-Length, none} for the first and the second call, on kept and non-kept requests, followed
     # by a request that reuses the connection
@@ -328,6 +392,17 @@ def make_app(script, calls):
                 raise httping.HTTPError(a["code"], reason=a["reason"], title=a["title"], detail=a["detail"],
                                         fault=a["fault"], headers=dict(hdrs))
             return gen_err()
+        if style == "raise":
+            def gen_raise():
+                for _ in range(a["pre"]):
+                    yield b""
+                start_response(a["status"], hdrs)
+                for p in a["pieces"]:
+                    yield b(p)
+                if a["raise_kind"] == "httperror":
+                    raise httping.HTTPError(500, title="failed mid-body", detail=rid)
+                raise RuntimeError("app failed mid-body " + rid)
+            return gen_raise()
         if style == "restart":
             first = a["first"]
 
@@ -498,7 +573,9 @@ def unframed_11_why(req):
 
 
 def kind_of(req):
-    return f"HTTP/{req['ver']}:{(req['conn'] or 'none').lower()}"
+    toks = conn_tokens(req)
+    main = "close" if "close" in toks else ("keep-alive" if "keep-alive" in toks else ("none" if not toks else "other-options"))
+    return f"HTTP/{req['ver']}:{main}" + (":among-several-options" if len(toks) > 1 else "")
 
 
 def run_case(case, ctx):
@@ -701,6 +778,13 @@ def _drive_and_judge(case, ctx, srv, tymist, conn, reqs, calls):
         code, reason, ehdrs, produced, cl = expected(r)
         ctx.count("responses_judged")
         ctx.count("framing_" + str(m.framing))
+        if r["app"]["style"] == "raise":
+            ctx.count("raising_iterator_responses_judged")
+            ctx.count("raising_iterator_" + r["app"]["raise_kind"] + ("_after_output" if any(r["app"]["pieces"]) else "_before_output"))
+            if any(r["app"]["pieces"]) and r["app"]["cl"] is None and r["ver"] == "1.1" and k + 1 < len(resps):
+                ctx.count("raising_iterator_chunked_response_followed_by_another")
+        if len(conn_tokens(r)) > 1:
+            ctx.count("multi_option_connection_requests_judged")
         if r["app"]["style"] == "restart":
             f_, s_ = r["app"]["first"]["cl"], r["app"]["cl"]
             ctx.count("restart_responses_judged")
